@@ -1300,11 +1300,11 @@ class RoundTripTypes(Oracle):
             tag = None
             own = hdr[4].split(",")
             if len(set(own)) < 3 and (kf[1] in "xc"):
-                # listed findings of the XML printer where modules share a prefix (values are printed with the modules' own
-                # prefixes): a prefix needed for two namespaces in one start tag / a declaration for a value that re-binds a
-                # prefix used in the same start tag
+                # listed finding of the XML printer where modules share a prefix (values are printed with the modules' own
+                # prefixes): a prefix needed for two namespaces in one start tag - only where the input document has such an
+                # element (the former finding xml-value-ns-redeclared is fixed by e9b7253)
                 data = [unhex(c.split(" ")[6]) for c in line.split("\t") if c.startswith("parse ")][0]
-                tag = "xml-same-prefix-value-clash" if types_clash_paths(data, own) else "xml-value-ns-redeclared"
+                tag = "xml-same-prefix-value-clash" if types_clash_paths(data, own) else None
             # (the former finding lyb-union-member-reresolved - the LYB printer re-resolved the member type of a union value
             # without validation - is fixed by affc70d: a recurrence is a plain violation)
             if rc(rt) != 0:
@@ -1545,47 +1545,25 @@ class QNamesX(Oracle):
             doc = payload(res)
             if fmt == "x":
                 try:
-                    for _ in range(500):
-                        try:
-                            got = xml_qnames(doc)
-                            break
-                        except xml.parsers.expat.ExpatError as e:
-                            # listed finding xml-value-ns-redeclared: a namespace prefix declared twice in ONE start tag (for the
-                            # metadata and again for the value of the node). The same namespace twice: the second declaration
-                            # is dropped and the document judged on; two namespaces (modules sharing a prefix): given up
-                            tag, cut = None, None
-                            if "duplicate attribute" in str(e):
-                                off = sum(len(ln) + 1 for ln in doc.split(b"\n")[:e.lineno - 1]) + e.offset
-                                a = doc.rfind(b"<", 0, doc.find(b">", off))
-                                b = doc.find(b">", a)
-                                decl = re.findall(rb'\sxmlns:([^=\s]+)="([^"]*)"', doc[a:b + 1])
-                                if len(decl) != len(set(d[0] for d in decl)):
-                                    tag = "xml-same-prefix-value-clash" if clash else "xml-value-ns-redeclared"
-                                    if len(set(decl)) == len(set(d[0] for d in decl)):
-                                        seen, tagtext = set(), doc[a:b + 1]
-                                        for m in list(re.finditer(rb'\sxmlns:([^=\s]+)="([^"]*)"', tagtext))[::-1]:
-                                            pass
-                                        out_, pos = b"", 0
-                                        for m in re.finditer(rb'\sxmlns:([^=\s]+)="([^"]*)"', tagtext):
-                                            if m.group(1) in seen:
-                                                out_ += tagtext[pos:m.start()]
-                                                pos = m.end()
-                                            seen.add(m.group(1))
-                                        cut = doc[:a] + out_ + tagtext[pos:] + doc[b + 1:]
-                            if cut is None:
-                                return (tag, "printed XML is not well-formed (%s): %s: %r" % (what, e, doc[max(0, e.offset - 150):e.offset + 60] if e.lineno == 1 else doc[:300]))
-                            known = (tag, "printed XML is not well-formed (%s): %s: %r" % (what, e, doc[max(0, e.offset - 150):e.offset + 60]))
-                            doc = cut
+                    got = xml_qnames(doc)
+                except xml.parsers.expat.ExpatError as e:
+                    # listed finding xml-same-prefix-value-clash: modules sharing a prefix, a start tag whose values need that
+                    # prefix for two namespaces defines it twice - only where the INPUT document has such an element. (The
+                    # former finding xml-value-ns-redeclared, the same namespace defined twice for metadata and value, is
+                    # fixed by e9b7253: a plain violation.)
+                    tag = None
+                    if "duplicate attribute" in str(e) and clash:
+                        off = sum(len(ln) + 1 for ln in doc.split(b"\n")[:e.lineno - 1]) + e.offset
+                        a = doc.rfind(b"<", 0, doc.find(b">", off))
+                        decl = re.findall(rb'\sxmlns:([^=\s]+)="([^"]*)"', doc[a:doc.find(b">", a) + 1])
+                        if len(set(decl)) != len(set(d[0] for d in decl)):
+                            tag = "xml-same-prefix-value-clash"
+                    return (tag, "printed XML is not well-formed (%s): %s: %r" % (what, e, doc[max(0, e.offset - 150):e.offset + 60] if e.lineno == 1 else doc[:300]))
                 except ValueError as e:
                     return (None, "printed XML (%s): %s" % (what, e))
                 if (got != want) if rel == "=" else any(got[key] < n for key, n in want.items()):
                     d = [(key, n, got.get(key, 0)) for key, n in want.items() if got.get(key, 0) != n] or \
                         [(key, 0, n) for key, n in got.items() if key not in want]
-                    if d[0][0][2] == "@namespace" and len(set(own.split(","))) < 3:
-                        # the same listed finding where modules share a prefix: the declaration for the value re-binds, in the
-                        # same start tag, the prefix a metadata attribute was printed with
-                        return ("xml-value-ns-redeclared", "a metadata attribute of the printed XML belongs to another namespace "
-                                "for a namespace-aware reader (%s): %r" % (what, d[0][0]))
                     if d[0][0][0] in clash:
                         return ("xml-same-prefix-value-clash", "a value that needs one prefix for two namespaces (modules sharing a "
                                 "prefix) means something else to a namespace-aware reader (%s): %r" % (what, d[0][0]))
